@@ -43,6 +43,19 @@ def gen_dims(r):
     return dims
 
 
+def gen_dims_tricky(r):
+    dims = gen_dims(r)
+    k = r.randrange(len(dims))
+    letter, name = dims[k][0], dims[k][1]
+    s0 = r.choice([3, 1990, 2020]) + 100 * k
+    offs = r.choice([[0, 2, 1, 3], [0, 3, 1, 2, 4], [0, 6, 2], [3, 1, 2, 0], [1, 0, 2], [0, 2, 1, 3]])
+    items = [s0 + o for o in offs]
+    kind = r.choice(["int", "int", "uint"])
+    tok = ",".join(f"i{i}" for i in items)
+    dims[k] = (letter, name, kind, items, f"D:{letter}:{name}:{'i' if kind == 'int' else 'n'}:{tok}")
+    return dims
+
+
 def gen_values(r, size, style, dims=None):
     out = []
     if style == "near_items":
@@ -74,85 +87,93 @@ def gen_table(tier, seed):
     specs = []
     stats = {"cases": 0, "ndims": {}, "todf": 0, "imports": 0, "wide": 0, "csv": 0, "faulty": 0, "fault_kinds": {},
              "headers": {}, "index": {}, "flags": {}, "existing_target": 0}
-    for cid in range(ncases):
-        dims = gen_dims(r)
+    # after the ordinary cases: integer-typed dimensions whose items are consecutive but not ascending, or whose
+    # first and last item are as far apart as consecutive ones would be (seed C11_r6_1: a "fast path" that takes
+    # label - first item for the position). Drawn from their own generator so the cases above stay what they were.
+    r2 = rng(seed, "table-tricky-int-items")
+    nextra = 16 if tier == "quick" else 200
+    for cid in range(ncases + nextra):
+        rr = r if cid < ncases else r2
+        dims = gen_dims(rr) if cid < ncases else gen_dims_tricky(rr)
+        if cid >= ncases:
+            stats["tricky_int_items"] = stats.get("tricky_int_items", 0) + 1
         size = 1
         for d in dims:
             size *= len(d[3])
-        style = r.choice(["any", "any", "fractional", "like_items", "near_items"])
-        values = gen_values(r, size, style, dims)
+        style = rr.choice(["any", "any", "fractional", "like_items", "near_items"])
+        values = gen_values(rr, size, style, dims)
         ops = []
         names = [d[1] for d in dims]
         multi = [d for d in dims if len(d[3]) > 1]
         # ---- exports
-        for _ in range(r.randint(1, 2)):
+        for _ in range(rr.randint(1, 2)):
             col = None
-            if len(dims) > 1 and r.random() < 0.5:
-                d = r.choice(dims)
-                col = d[1] if r.random() < 0.6 else d[0]
-            elif r.random() < 0.1:
-                col = r.choice(["nosuch", names[0]])
-            ops.append({"op": "todf", "index": r.random() < 0.5, "col": col, "sparse": r.random() < 0.4})
+            if len(dims) > 1 and rr.random() < 0.5:
+                d = rr.choice(dims)
+                col = d[1] if rr.random() < 0.6 else d[0]
+            elif rr.random() < 0.1:
+                col = rr.choice(["nosuch", names[0]])
+            ops.append({"op": "todf", "index": rr.random() < 0.5, "col": col, "sparse": rr.random() < 0.4})
             stats["todf"] += 1
         # ---- imports
-        for _ in range(r.randint(2, 4)):
-            lay = {"seed": r.randrange(10 ** 6)}
+        for _ in range(rr.randint(2, 4)):
+            lay = {"seed": rr.randrange(10 ** 6)}
             wide = None
-            if len(dims) > 1 and r.random() < 0.4:
-                wide = r.choice(dims)[1]
+            if len(dims) > 1 and rr.random() < 0.4:
+                wide = rr.choice(dims)[1]
                 stats["wide"] += 1
             lay["wide"] = wide
-            hs = r.choice(["name", "name", "letter", "none", "mixed"])
+            hs = rr.choice(["name", "name", "letter", "none", "mixed"])
             header = {}
             for n in names:
-                header[n] = hs if hs != "mixed" else r.choice(["name", "letter", "none"])
+                header[n] = hs if hs != "mixed" else rr.choice(["name", "letter", "none"])
             lay["header"] = header
             stats["headers"][hs] = stats["headers"].get(hs, 0) + 1
-            lay["drop_single"] = r.random() < 0.4
-            lay["value_name"] = r.choice([None, None, "amount", "val", "v"])
-            lay["perm_rows"] = r.random() < 0.6
-            lay["keep_index"] = r.random() < 0.4        # a reordered frame keeps its original row labels
-            lay["perm_cols"] = r.random() < 0.6
-            lay["index"] = r.choice(["none", "none", "multi", "multi", "unnamed"]) if r.random() < 0.9 else "none"
-            lay["index_col"] = r.randrange(4)
-            lay["csv"] = r.random() < 0.2
-            lay["dup_labels"] = r.random() < 0.2
-            lay["via"] = r.choice([None, None, None, "csvreader", "xlsxreader"])     # through the parameter readers
+            lay["drop_single"] = rr.random() < 0.4
+            lay["value_name"] = rr.choice([None, None, "amount", "val", "v"])
+            lay["perm_rows"] = rr.random() < 0.6
+            lay["keep_index"] = rr.random() < 0.4        # a reordered frame keeps its original row labels
+            lay["perm_cols"] = rr.random() < 0.6
+            lay["index"] = rr.choice(["none", "none", "multi", "multi", "unnamed"]) if rr.random() < 0.9 else "none"
+            lay["index_col"] = rr.randrange(4)
+            lay["csv"] = rr.random() < 0.2
+            lay["dup_labels"] = rr.random() < 0.2
+            lay["via"] = rr.choice([None, None, None, "csvreader", "xlsxreader"])     # through the parameter readers
             stats["index"][lay["index"]] = stats["index"].get(lay["index"], 0) + 1
             stats["csv"] += int(lay["csv"])
             faults = []
-            if r.random() < 0.45:
-                for _ in range(r.choice([1, 1, 1, 2])):
-                    k = r.choice(["drop_row", "dup_row", "relabel", "blank", "drop_col", "extra_valcol", "dup_and_drop", "extra_textcol"])
-                    faults.append({"kind": k, "pos": r.randrange(1000), "col": r.randrange(4),
-                                   "change_value": r.random() < 0.5})
-                    if k == "relabel" and r.random() < 0.4:
+            if rr.random() < 0.45:
+                for _ in range(rr.choice([1, 1, 1, 2])):
+                    k = rr.choice(["drop_row", "dup_row", "relabel", "blank", "drop_col", "extra_valcol", "dup_and_drop", "extra_textcol"])
+                    faults.append({"kind": k, "pos": rr.randrange(1000), "col": rr.randrange(4),
+                                   "change_value": rr.random() < 0.5})
+                    if k == "relabel" and rr.random() < 0.4:
                         faults[-1]["frac"] = True          # an integer label becomes label + 0.75: not an item either
                         stats["fault_kinds"]["relabel_fractional"] = stats["fault_kinds"].get("relabel_fractional", 0) + 1
                     stats["fault_kinds"][k] = stats["fault_kinds"].get(k, 0) + 1
                 stats["faulty"] += 1
-            miss, extra = r.choice([(0, 0), (0, 0), (1, 0), (0, 1), (1, 1)])
+            miss, extra = rr.choice([(0, 0), (0, 0), (1, 0), (0, 1), (1, 1)])
             stats["flags"][f"{miss}{extra}"] = stats["flags"].get(f"{miss}{extra}", 0) + 1
-            if extra and any(f["kind"] == "relabel" for f in faults) and r.random() < 0.7:
+            if extra and any(f["kind"] == "relabel" for f in faults) and rr.random() < 0.7:
                 # rows to be ignored in a hand-assembled frame whose row labels repeat
                 lay["dup_labels"] = True
                 lay["index"] = "none"
-                if r.random() < 0.6:
+                if rr.random() < 0.6:
                     miss = 1
                 stats["dup_label_relabel"] = stats.get("dup_label_relabel", 0) + 1
-                if r.random() < 0.7:
+                if rr.random() < 0.7:
                     lay["wide"] = None
-            if miss and any(f["kind"] == "blank" for f in faults) and r.random() < 0.6:
+            if miss and any(f["kind"] == "blank" for f in faults) and rr.random() < 0.6:
                 # an empty cell in a sheet read by the Excel / CSV parameter reader with allow_missing_values
-                lay["via"] = r.choice(["xlsxreader", "xlsxreader", "csvreader"])
+                lay["via"] = rr.choice(["xlsxreader", "xlsxreader", "csvreader"])
                 lay["index"] = "none"; lay["csv"] = False
-                if len(dims) > 1 and r.random() < 0.7:
-                    lay["wide"] = r.choice(dims)[1]
+                if len(dims) > 1 and rr.random() < 0.7:
+                    lay["wide"] = rr.choice(dims)[1]
                 stats["reader_blank"] = stats.get("reader_blank", 0) + 1
-            target = "existing" if r.random() < 0.35 else "new"
-            if any(f["kind"] in ("dup_row", "dup_and_drop") and not f["change_value"] for f in faults) and r.random() < 0.6:
+            target = "existing" if rr.random() < 0.35 else "new"
+            if any(f["kind"] in ("dup_row", "dup_and_drop") and not f["change_value"] for f in faults) and rr.random() < 0.6:
                 # a line repeated verbatim in a file read by the CSV / Excel parameter reader: refused like any duplicate
-                lay["via"] = r.choice(["csvreader", "xlsxreader"])
+                lay["via"] = rr.choice(["csvreader", "xlsxreader"])
                 lay["index"] = "none"; lay["csv"] = False
                 target = "new"
                 stats["reader_repeated_line"] = stats.get("reader_repeated_line", 0) + 1
